@@ -20,10 +20,18 @@ type Mutant struct {
 	Replace  string `json:"replace"`
 	Expect   string `json:"expect_rule"`
 	Note     string `json:"note"`
+	// More holds further edits of the same variant (a seeded change that needs an
+	// import line as well, or touches two files).
+	More []struct {
+		File    string `json:"file"`
+		Find    string `json:"find"`
+		Replace string `json:"replace"`
+	} `json:"more,omitempty"`
 }
 
 // runMutant analyses one mutant through an overlay; prints one line:
-//   DETECTED|MISSED|STALE|BROKEN <name> ...
+//
+//	DETECTED|MISSED|STALE|BROKEN <name> ...
 func runMutant(args []string) int {
 	fs := flag.NewFlagSet("mutant", flag.ExitOnError)
 	repo := fs.String("repo", "/repo", "")
@@ -75,6 +83,25 @@ func runMutant(args []string) int {
 		return 0
 	}
 	repoOverlay = map[string][]byte{path: []byte(strings.Replace(string(src), m.Find, m.Replace, 1))}
+	for _, e := range m.More {
+		file := e.File
+		if file == "" {
+			file = m.File
+		}
+		path := filepath.Join(*repo, file)
+		cur, ok := repoOverlay[path]
+		if !ok {
+			if cur, err = os.ReadFile(path); err != nil {
+				fmt.Printf("STALE %s: %v\n", m.Name, err)
+				return 0
+			}
+		}
+		if n := strings.Count(string(cur), e.Find); n != 1 {
+			fmt.Printf("STALE %s: the text to replace occurs %d times in %s\n", m.Name, n, file)
+			return 0
+		}
+		repoOverlay[path] = []byte(strings.Replace(string(cur), e.Find, e.Replace, 1))
+	}
 	p := registry[m.Property]
 	if p == nil {
 		fmt.Printf("ERROR %s: no check for %s\n", m.Name, m.Property)
